@@ -289,4 +289,147 @@ example (W16 : C16.World) (scn : String) :
     WorldOk (encWorld W16 scn) W16 scn (.fn 0) (.obj "TypeRegistry" []) .none true :=
   ⟨fun _ _ => rfl, fun _ => by simp [encWorld], fun _ => rfl, rfl, fun _ => rfl⟩
 
+/-! ### the detector closure `register` builds (base.py `detector(_cls)`) -/
+
+/-- the class world of the translated code answers as the model's; `nm` names the model's attribute numbers -/
+structure ClassWorldOk (W : Obj.World Det) (W16 : C16.World) (nm : Nat → String) : Prop where
+  issub : ∀ (t : Nat) (cs : List Nat),
+    W.ext "issubclass" [.cls t, .seq .tuple (cs.map OVal.cls)] = .ok (.bool (cs.any fun c => W16.issub t c))
+  isinst : ∀ (t m : Nat), W.ext "isinstance" [.cls t, .cls m] = .ok (.bool (W16.isinst t m))
+  hasattr : ∀ (t a : Nat), (W.clsAttr t (nm a)).isSome = W16.hasattr t a
+  named : ∀ a : Nat, ((nm a).toList != []) = true
+
+def encOptCls : Option Nat → D
+  | none => .none
+  | some m => .cls m
+
+def encOptAttr (nm : Nat → String) : Option Nat → D
+  | none => .none
+  | some a => .str (nm a)
+
+theorem memS_cls (t : Nat) (cs : List Nat) : memS (V := Det) (.cls t) (cs.map OVal.cls) = .ok (cs.contains t) := by
+  induction cs with
+  | nil => rfl
+  | cons c rest ih =>
+    simp only [List.map_cons, memS, Obj.eq, eqS, ih, bind, Except.bind, pure, Except.pure, List.contains_cons]
+    by_cases h : t = c
+    · subst h; simp
+    · simp [h]
+
+/-- the closure is the model's `detClosure` (so `detAnswer (.std …)` is what the regenerated closure answers) -/
+theorem C16_gen_detector (W : Obj.World Det) (W16 : C16.World) (nm : Nat → String) (hw : ClassWorldOk W W16 nm)
+    (cs : List Nat) (sub : Bool) (m a : Option Nat) (t : Nat) :
+    Registry.register_detector W (.seq .tuple (cs.map OVal.cls)) (.bool sub) (encOptCls m) (encOptAttr nm a) (.cls t)
+      = .ok (.bool (detClosure W16 cs sub m a t)) := by
+  gen_obligation "C16_gen_detector: the regenerated code (Utv.Gen) is no longer equal to the hand model here" by
+    have hc : contains (V := Det) (.seq .tuple (cs.map OVal.cls)) (.cls t) = .ok (cs.contains t) := by
+      simp only [contains, memS_cls]
+    have he : (List.map (OVal.cls (V := Det)) cs).isEmpty = cs.isEmpty := by cases cs <;> rfl
+    unfold Registry.register_detector detClosure
+    cases hce : cs.isEmpty <;> cases sub <;> cases m <;> cases a <;>
+      simp only [truthy_seq, truthy_bool, truthy_none, truthy_cls, truthy_str, he, hce, hc, hw.issub, hw.isinst, hw.named,
+        encOptCls, encOptAttr, hasattrW, hw.hasattr, bind, Except.bind, pure, Except.pure, Bool.not_true, Bool.not_false,
+        Bool.false_eq_true, if_false, if_true, Bool.true_and, Bool.false_and] <;>
+      (try (first | rfl | grind | (split <;> simp_all)))
+
+/-! ### `register(…)(f)` as one statement (`registerCall`'s last step), and the outer `register` -/
+
+/-- the decorator under a validator that answers as the model's `World.valid` -/
+theorem C16_gen_register_call (W : Obj.World Det) (W16 : C16.World) (r : Reg) (e : Entry) (gen : Int) (sc vd base dflt : D)
+    (hv : W.call vd [.fn e.fn] = .ok (.bool (W16.valid e.fn))) :
+    Registry.register_decorator W (encReg r gen sc vd base dflt) (.val e.det) (.int e.prio) (.fn e.fn)
+      = .ok (if W16.valid e.fn then (encReg (register r e) (gen + 1) sc vd base dflt, Outcome.ret (.fn e.fn))
+             else (encReg r gen sc vd base dflt, Outcome.raise (.obj "TypeError" []))) := by
+  gen_obligation "C16_gen_register_call: the regenerated code (Utv.Gen) is no longer equal to the hand model here" by
+    cases h : W16.valid e.fn
+    · rw [h] at hv; simpa using C16_gen_register_invalid W r e gen sc vd base dflt hv
+    · rw [h] at hv; simpa using C16_gen_register W r e gen sc vd base dflt hv
+
+def encClsArg : ClsArg → D
+  | .cls c => .cls c
+  | .notClass => .str "not a class"
+
+def encAttrArg (nm : Nat → String) : AttrArg → D
+  | .absent => .none
+  | .name a => .str (nm a)
+  | .notStr => .int 1
+
+/-- the keyword arguments of a `register(*classes, …)` call (a custom detector is a callable) -/
+def encKwArgs (nm : Nat → String) (a : RegArgs) : List (String × D) :=
+  [("attr", encAttrArg nm a.attr), ("detector", match a.detector with | none => .none | some k => .fn k),
+   ("metaclass", encOptCls a.metaclass), ("allow_subclasses", .bool a.allowSub), ("priority", .int a.priority)]
+
+/-- what the decorator captures as `detector`: the custom callable, or the closure over the four arguments -/
+def encDetC (nm : Nat → String) : Det → D
+  | .custom k => .fn k
+  | .std cs sub m at_ => .obj "closure:detector" [("allow_subclasses", .bool sub), ("attr", encOptAttr nm at_),
+      ("classes", .seq .tuple (cs.map OVal.cls)), ("metaclass", encOptCls m)]
+
+def encRegErr : RegErr → D
+  | .valueError => .obj "ValueError" []
+  | .assertionError => .obj "AssertionError" []
+  | .typeError => .obj "TypeError" []
+
+/-- `inspect.isclass` answers for the two kinds of positional argument -/
+structure IsclassOk (W : Obj.World Det) : Prop where
+  yes : ∀ c : Nat, W.ext "isclass" [.cls c] = .ok (.bool true)
+  no : W.ext "isclass" [encClsArg .notClass] = .ok (.bool false)
+
+/-- the `for c in classes: assert inspect.isclass(c)` loop -/
+theorem forIn_isclass (g : ClsArg → PUnit → M Det (ForInStep PUnit))
+    (hg : ∀ x : ClsArg, g x ⟨⟩ =
+      if x == .notClass then .error (.raised (.obj "AssertionError" [])) else .ok (.yield ⟨⟩)) :
+    ∀ cs : List ClsArg, forIn cs PUnit.unit g =
+      if cs.any (· == .notClass) then .error (.raised (.obj "AssertionError" [])) else .ok ⟨⟩ := by
+  intro cs
+  induction cs with
+  | nil => rfl
+  | cons x xs ih =>
+    rw [List.forIn_cons, hg]
+    cases x <;> simp [bind, Except.bind, ih]
+
+theorem classes_ok (cs : List ClsArg) (h : cs.any (· == .notClass) = false) :
+    cs.map encClsArg = (cs.filterMap fun | .cls c => some c | .notClass => none).map (OVal.cls (V := Det)) := by
+  induction cs with
+  | nil => rfl
+  | cons x xs ih =>
+    cases x with
+    | cls c =>
+      have h' : xs.any (· == .notClass) = false := by simpa using h
+      simp [encClsArg, ih h']
+    | notClass => simp at h
+
+/-- the outer `register`: it raises exactly when `registerOuter` refuses (the same error), and otherwise the decorator
+captures the detector `registerOuter` builds (and the priority) -/
+theorem C16_gen_register_outer (W : Obj.World Det) (hi : IsclassOk W) (nm : Nat → String)
+    (hnm : ∀ a : Nat, ((nm a).toList != []) = true) (self : D) (a : RegArgs) :
+    Registry.register_outer W self (.seq .tuple (a.classes.map encClsArg)) (encKwArgs nm a)
+      = match registerOuter a with
+        | .error e => .error (.raised (encRegErr e))
+        | .ok d => .ok (.obj "locals" [("detector", encDetC nm d), ("priority", .int a.priority)]) := by
+  gen_obligation "C16_gen_register_outer: the regenerated code (Utv.Gen) is no longer equal to the hand model here" by
+    obtain ⟨classes, attr, detector, metaclass, allowSub, priority⟩ := a
+    unfold Registry.register_outer registerOuter
+    cases detector with
+    | some k => obj_simp [encKwArgs, lookupAttr, encDetC]
+    | none =>
+      obj_simp [encKwArgs, lookupAttr, iter]
+      rw [forIn_isclass]
+      · by_cases hn : classes.any (· == ClsArg.notClass) = true
+        · have hm : ClsArg.notClass ∈ classes := by simpa using hn
+          have hne : classes ≠ [] := by intro h; subst h; simp at hm
+          cases attr <;> cases metaclass <;>
+            simp [hn, hm, hne, encAttrArg, encOptCls, hnm, isinstance, encRegErr, pure, Except.pure]
+        · have hn' : classes.any (· == ClsArg.notClass) = false := by
+            cases h : classes.any (· == ClsArg.notClass) <;> simp_all
+          have hm : ¬ ClsArg.notClass ∈ classes := by
+            intro hmem; have : classes.any (· == ClsArg.notClass) = true := List.any_eq_true.mpr ⟨_, hmem, by simp⟩
+            simp [hn'] at this
+          have hcl := classes_ok classes hn'
+          cases attr <;> cases metaclass <;> by_cases hc : classes = [] <;>
+            simp [hn', hm, hc, hcl, encAttrArg, encOptCls, encOptAttr, hnm, isinstance, encRegErr, encDetC, RegArgs.classIds,
+              RegArgs.attrName, pure, Except.pure] <;> rfl
+      · intro x
+        cases x <;> simp [encClsArg, hi.yes, (show W.ext "isclass" [OVal.str "not a class"] = _ from hi.no), bind, Except.bind]
+
 end Utv.GenEq.C16
